@@ -306,6 +306,10 @@ pub fn answer(w: &mut World, uri: &str, body: &[u8], json: &Value, kind: ReqKind
             EtagSpec::HashOnly => {
                 etag = Some(format!("3006020101020101:{}", hex::encode(Sha256::digest(body))).into_bytes());
             }
+            EtagSpec::OtherHeldKey => {
+                let other = keys.keys.iter().find(|k| Some(k.0) != key_id).map(|k| &k.1).unwrap_or(&keys.foreign);
+                etag = Some(sign_etag(other, body, &rbody, &c2k).1.into_bytes());
+            }
             EtagSpec::Replay(n) => {
                 if !w.genuine.is_empty() {
                     let g = &w.genuine[*n % w.genuine.len()];
